@@ -579,13 +579,52 @@ func completeUUIDConversion(c *Ctx, f *ssa.Function, depth int) (bool, string) {
 		return false, "the conversion cannot report a malformed id (no error result)"
 	}
 	nParse := 0
-	for _, ci := range callsIn(f, false, func(cal *ssa.Function, _ ssa.CallInstruction) bool { return true }) {
-		cal := ci.Common().StaticCallee()
-		call, isCall := ci.(*ssa.Call)
-		if !isCall {
-			continue
+	isUUIDParse := func(g *ssa.Function) bool {
+		if g == nil {
+			return false
 		}
-		if cal.Name() == "Parse" && strings.HasSuffix(fnPkgPath(cal), "google/uuid") {
+		if o := g.Origin(); o != nil {
+			g = o
+		}
+		return g.Name() == "Parse" && strings.HasSuffix(fnPkgPath(g), "google/uuid")
+	}
+	var parseCalls []*ssa.Call
+	for _, ci := range callsIn(f, false, func(cal *ssa.Function, _ ssa.CallInstruction) bool { return true }) {
+		if call, isCall := ci.(*ssa.Call); isCall && isUUIDParse(ci.Common().StaticCallee()) {
+			parseCalls = append(parseCalls, call)
+		}
+	}
+	// a generic element-wise helper handed uuid.Parse as a function value: its dynamic call of that parameter
+	for _, b := range f.Blocks {
+		for _, in := range b.Instrs {
+			dc, isDC := in.(*ssa.Call)
+			if !isDC || dc.Call.StaticCallee() != nil || dc.Call.IsInvoke() {
+				continue
+			}
+			prm, isP := resolve(dc.Call.Value).(*ssa.Parameter)
+			if !isP || prm.Parent() != f {
+				continue
+			}
+			idx := -1
+			for i, q := range f.Params {
+				if q == prm {
+					idx = i
+				}
+			}
+			cs := c.callersOf(f)
+			all := len(cs) > 0 && idx >= 0
+			for _, site := range cs {
+				if idx >= len(site.Common().Args) || !isUUIDParse(funcOf(site.Common().Args[idx])) {
+					all = false
+				}
+			}
+			if all {
+				parseCalls = append(parseCalls, dc)
+			}
+		}
+	}
+	for _, call := range parseCalls {
+		{
 			nParse++
 			var errV ssa.Value
 			if refs := call.Referrers(); refs != nil {
